@@ -222,6 +222,7 @@ class Proc:
     name: str
     args: List[Var] = field(default_factory=list)
     proc_args: List["Proc"] = field(default_factory=list)  # dummy procedures declared by interface body (names also in arg_order)
+    dummy_attrs: List[str] = field(default_factory=list)  # when this Proc is a dummy procedure: attributes given by separate statements (optional)
     arg_order: List[str] = field(default_factory=list)
     result: Optional[Var] = None  # function result variable (name may equal function name)
     result_clause: bool = False
@@ -614,6 +615,10 @@ def render_proc(st: Style, p: Proc, scope_kind: str) -> List[Stmt]:
     decls += render_vars(st, p.args, "proc")
     for it in p.interfaces:
         decls.append(render_interface(st, it, "proc"))
+    for pa in p.proc_args:
+        blk = [Stmt(st.kw("interface"), kind="open")] + render_proc(st, pa, "iface") + [Stmt(st.kw("end") + " " + st.kw("interface"), kind="end")]
+        att = [Stmt(st.kw(a) + (" :: " if st.dcolon() else " ") + st.nm(pa.name)) for a in pa.dummy_attrs]
+        decls.append(att + blk if (not st.canonical and st.flip()) else blk + att)
     if p.kind == "function" and p.result is not None and not p.ret_on_prefix:
         decls.append(render_var(st, p.result, "proc"))
     if p.kind == "function" and p.result is not None and p.ret_on_prefix and p.result.attrs:
@@ -781,7 +786,7 @@ def expect_proc(table, path, p: Proc, default_perm, kindname=None):
         expect_var(table, pp, a, "arg", with_perm=False)
     for pa in p.proc_args:
         # a dummy procedure declared by an interface body is reported as the argument itself
-        table[pp + f"/arg:{pa.name.lower()}"] = {"kind": "arg", "is_procedure": True, "proctype": pa.kind,
+        table[pp + f"/arg:{pa.name.lower()}"] = {"kind": "arg", "is_procedure": True, "proctype": pa.kind, "attribs": sorted(pa.dummy_attrs),
                                                    "args": [a.lower() for a in pa.arg_order]}
     if p.kind == "function" and p.result is not None:
         r = p.result
